@@ -98,6 +98,15 @@ pub fn run_to_client(sim: &Sim, _idx: u64) {
                         sim.violation("C08/success-read-as-error", format!("peer succeeded, caller sees {:?} {:?}", e.code(), e.message()));
                     } else {
                         check_md_received(sim, who, &trail_md, e.metadata());
+                        if !trailers_only {
+                            // a unary call has no other place for them: the metadata of the response
+                            // headers that preceded the error trailers is carried by the error status
+                            sim.probe("unary-headers-then-error-trailers");
+                            check_md_received(sim, "foreign server -> caller (initial metadata of a failed unary call)", &head_md, e.metadata());
+                            if let Some(d) = crate::gen::md_mismatch(&head_md, e.metadata()) {
+                                sim.violation("C02/status-metadata-differs", format!("failed unary call: the initial metadata the peer attached is not carried by the error: {d}"));
+                            }
+                        }
                     }
                 }
             }
